@@ -1187,7 +1187,7 @@ class BareServer():
         Timeout stale connections
         """
         self.servant.serviceConnects()
-        for ca, ix in self.servant.ixes.items():
+        for ca, ix in list(self.servant.ixes.items()):  # ixes changes during iteration
             # check for and handle cutoff connections by client here
 
             if ca not in self.stewards:
@@ -1201,9 +1201,14 @@ class BareServer():
         """
         Service pending requestants and responders
         """
-        for ca, steward in self.stewards.items():
+        for ca, steward in list(self.stewards.items()):  # stewards changes during iteration
             if not steward.waited:
-                steward.requestant.parse()
+                try:
+                    steward.requestant.parse()
+                except httping.HTTPException as ex:  # malformed request so give up on connection
+                    sys.stderr.write(str(ex))
+                    self.closeConnection(ca)
+                    continue
 
                 if steward.requestant.ended:
                     steward.requestant.dictify()
